@@ -332,7 +332,9 @@ def report(ctx: click.Context, tjp_file: Optional[str], output_csv: bool, output
         if verbose:
             logger.debug("Running ScriptPlan report generator")
 
-        success, error_msg = run_scriptplan(str(temp_file), str(temp_output_dir))
+        # Only the auto-report is wanted: reports the project file defines itself are not generated
+        # (they could fail, or name files outside the temporary directory)
+        success, error_msg = run_scriptplan(str(temp_file), str(temp_output_dir), [auto_report_id])
 
         if not success:
             raise ReportGenerationError(error_msg or "Report generation failed")
